@@ -10,6 +10,12 @@ global size_of usize == 8;
 //@ include units/verbarg/part.rs
 //@ include units/lifecycle/helpers.rs
 
+impl DltMessage {
+//@ extract src/dlt/mod.rs DltMessage::is_ctrl_response
+//@   spec
+//@|    ensures r == (match self.extended_header { Some(e) => (e.verb_mstp_mtin >> 1) & 0x07 == 3 && e.verb_mstp_mtin >> 4 == 2, None => false }),
+//@ end
+}
 // the body of ctrl_msgs_anon without the `match message_id { .. }` that rewrites the payload (dropped through the `__`
 // wildcard: vec!/to_endian_vec! macros): the guard of the probe and the probe itself - the same pattern as in Lifecycle::update
 // (findings F4 / F4b): `get(0..4).unwrap()` on the first argument is safe only for non-verbose messages, whose first argument is
